@@ -151,6 +151,25 @@ func verifHarness_C04_onion() {
 		exp["/g/r7"] = verifCat(gids, inner, r7, m7id)
 	}, gh...)
 
+	// the custom fallback handlers are installed before or after the last global Use:
+	// either way every global middleware runs around them
+	var nfIDs, naIDs []int
+	fallbacks := func() {
+		if nf > 0 {
+			var hs []HandlerFunc
+			hs, nfIDs = p.mk(nf)
+			r.NotFound(hs...)
+		}
+		if na > 0 {
+			var hs []HandlerFunc
+			hs, naIDs = p.mk(na)
+			r.NotAllowed(hs...)
+		}
+	}
+	fallbacksFirst := (a+b+c+d)%2 == 1
+	if fallbacksFirst {
+		fallbacks()
+	}
 	g3h, g3 := p.mk(h)
 	r.Use(g3h...)
 	m5, m5id := main()
@@ -168,16 +187,8 @@ func verifHarness_C04_onion() {
 		}, rgh...)
 	}
 
-	var nfIDs, naIDs []int
-	if nf > 0 {
-		var hs []HandlerFunc
-		hs, nfIDs = p.mk(nf)
-		r.NotFound(hs...)
-	}
-	if na > 0 {
-		var hs []HandlerFunc
-		hs, naIDs = p.mk(na)
-		r.NotAllowed(hs...)
+	if !fallbacksFirst {
+		fallbacks()
 	}
 	globals := verifCat(g1, g2, g3)
 
